@@ -77,12 +77,18 @@ def streams(tier, rng, P, only=None, cases=None):
         cs = []
         n = 3000 if big else 500
         for i in range(n):
-            form = rng.choice(["rest", "note", "noten", "l", "bang_time", "bang_arg", "after_res", "nol", "nol", "div", "div", "divin"])
+            form = rng.choice(["rest", "note", "noten", "l", "bang_time", "bang_arg", "after_res", "nol", "nol", "div", "div", "divin", "chord", "chord"])
             text, s, k = gen_expr(rng, True, layout=(form in ("rest", "note", "l") and rng.random() < 0.4))
             tb = rng.choice([48, 96, 120, 480, 960])
             dtext, ds, _ = gen_expr(rng, True)
             if form == "rest": src = "TimeBase(%d) l%s r%s n60" % (tb, dtext, text)
             elif form == "note": src = "TimeBase(%d) l%s c%s n60" % (tb, dtext, text)
+            elif form == "chord":
+                # the length written after a chord moves the pointer from the chord's start, whatever stands between the quotes (rests and
+                # numbered notes included); a chord's length must begin with a digit or `^`
+                if not text or text[0] not in "0123456789^": continue
+                src = "TimeBase(%d) l%s %s'%s'%s n60" % (tb, dtext, rng.choice(["", "r4 ", "c "]), rng.choice(["ce", "ce r8", "c r", "ce n67,8", "r8 ce", "c e g", "n61 r"]), text)
+                if src.split("'")[0].endswith(("r4 ", "c ")): continue      # (keeps the sentinel's expected tick the bare value)
             elif form == "div": src = "TimeBase(%d) l%s %s%s n60" % (tb, dtext, rng.choice(["{cde}", "{c d}", "Div{c}", "{c {d e}}", "{[3 c]}"]), text)   # the length written after a tuplet
             elif form == "divin":
                 # inside an enclosing tuplet the default of the inner tuplet's length is the share of the outer one; after both, the outer length counts
